@@ -707,6 +707,23 @@ impl<'tcx> Dumper<'tcx> {
                 ),
                 ("spans".to_string(), J::Null), // filled below
                 ("promoted".to_string(), arr(pj)),
+                ("generics".to_string(), {
+                    // names of the generic parameters in substitution order (parents first): lets the analyses bind a
+                    // `const N: usize` parameter to the argument of the call it is inlined at
+                    let mut names: Vec<J> = Vec::new();
+                    let mut stack = vec![did];
+                    let mut cur = did;
+                    while let Some(p) = tcx.generics_of(cur).parent {
+                        stack.push(p);
+                        cur = p;
+                    }
+                    for d in stack.iter().rev() {
+                        for gp in tcx.generics_of(*d).own_params.iter() {
+                            names.push(s(gp.name.to_string()));
+                        }
+                    }
+                    arr(names)
+                }),
             ];
             if let J::O(fields) = bj {
                 o.extend(fields);
